@@ -41,7 +41,7 @@ Abstract(s, rs, bs, maxBody, cut) ==
                           end |-> IF cut > 0 /\ cut < o[i].end THEN cut ELSE o[i].end,
                           bodyLen |-> s[i].bodyLen, expect100 |-> s[i].expect100 /\ s[i].raw = "",
                           close |-> s[i].close /\ s[i].raw = "", hclose |-> HClose(rs, bs, i), bad |-> s[i].raw # "",
-                          big |-> (maxBody > 0 /\ s[i].bodyLen > maxBody),
+                          big |-> (maxBody > 0 /\ s[i].bodyLen > maxBody), ambig |-> Ambiguous(s[i]),
                           partial |-> (cut > 0 /\ o[i].start < cut /\ cut < o[i].end)]]
 
 NoCfg == [streaming |-> FALSE, idle |-> "inloop", trace |-> FALSE, wfail |-> 0, deny |-> FALSE, nokeep |-> FALSE]
